@@ -565,3 +565,152 @@ func checkRetryOperands(c *Ctx, rule string, f *FuncInfo) int {
 	})
 	return n
 }
+
+// checkNoSwallow: no success return may be reachable on the branch where the error of a selected call is known to
+// be non-nil, unless the path went through the true edge of an allowed classification test
+// (errors.Is(err, <allowed sentinel>), os.IsNotExist(err)...). allowed maps "<funcID>" to the sentinel names that
+// function may legitimately absorb.
+func checkNoSwallow(c *Ctx, rule string, f *FuncInfo, want func(id string) bool, allowedSentinels []string) int {
+	p := c.P
+	bodies := []*Body{p.BodyOf(f)}
+	for _, l := range f.Lits {
+		bodies = append(bodies, p.LitBody(f, l))
+	}
+	n := 0
+	allowed := map[string]bool{}
+	for _, a := range allowedSentinels {
+		allowed[a] = true
+	}
+	for _, b := range bodies {
+		if b.errResultIndex() < 0 {
+			continue
+		}
+		info := b.Info()
+		sites, _ := b.errDefsIn(want)
+		for _, s := range sites {
+			n++
+			v := s.Var
+			const (
+				idle     = 1
+				unknown  = 2
+				failed   = 4
+				absorbed = 8 // failed, but classified as an allowed sentinel
+				okNil    = 16
+			)
+			var bad []ast.Node
+			b.run(flowSpec{
+				entry: idle,
+				node: func(nd ast.Node, st uint64) uint64 {
+					if nd == s.Assign || containsNode(nd, s.Assign) {
+						return unknown
+					}
+					if st&(failed|unknown|absorbed|okNil) != 0 {
+						// redefinition of v ends the tracking
+						if as, ok := nd.(*ast.AssignStmt); ok {
+							for _, l := range as.Lhs {
+								if id, ok := ast.Unparen(l).(*ast.Ident); ok && info.Uses[id] == v {
+									return idle
+								}
+							}
+						}
+					}
+					if r, ok := nd.(*ast.ReturnStmt); ok && st&failed != 0 {
+						if b.classifyReturn(r) == retSuccess {
+							bad = append(bad, r)
+						}
+					}
+					return st
+				},
+				edge: func(blk *cfg.Block, i int, st uint64) uint64 {
+					cond := condOf(blk)
+					if cond == nil || st&(unknown|failed) == 0 {
+						return st
+					}
+					var r int
+					if i == 0 {
+						r = condNilness(info, cond, v)
+					} else {
+						r = condNilnessWhenFalse(info, cond, v)
+					}
+					switch r {
+					case +1:
+						return (st &^ (unknown | okNil)) | failed
+					case -1:
+						return (st &^ (unknown | failed)) | okNil
+					}
+					// a positive classification of v as a conjunct of a true edge implies v != nil
+					if i == 0 && st&unknown != 0 {
+						for _, cj := range conjuncts(cond) {
+							if cls, neg := classifierSentinel(info, cj, v); cls != "" && !neg {
+								if allowed[cls] {
+									return (st &^ (unknown | okNil)) | absorbed
+								}
+								return (st &^ (unknown | okNil)) | failed
+							}
+						}
+					}
+					// classification tests on the failed branch
+					if st&failed != 0 {
+						if cls, neg := classifierSentinel(info, cond, v); cls != "" && allowed[cls] {
+							if (i == 0) != neg {
+								return (st &^ failed) | absorbed
+							}
+						}
+					}
+					return st
+				},
+			})
+			key := callKey(f, s.Call)
+			if len(bad) > 0 {
+				c.fail(rule, key, p.Pos(bad[0].Pos()), "a success return is reachable on the branch where the error of "+shortCallee(calleeID(info, s.Call))+" is non-nil: the failure is swallowed and the operation reports success")
+			} else {
+				c.ok(rule, key, p.Pos(s.Call.Pos()), "no success return on the non-nil branch of this call's error")
+			}
+		}
+	}
+	return n
+}
+
+// classifierSentinel recognises errors.Is(v, pkg.ErrX) / !errors.Is(...) / os.IsNotExist(v); returns the sentinel
+// name ("ErrX" / "os.IsNotExist") and whether the test is negated.
+func classifierSentinel(info *types.Info, cond ast.Expr, v *types.Var) (string, bool) {
+	cond = ast.Unparen(cond)
+	neg := false
+	if u, ok := cond.(*ast.UnaryExpr); ok && u.Op == token.NOT {
+		neg = true
+		cond = ast.Unparen(u.X)
+	}
+	if be, ok := cond.(*ast.BinaryExpr); ok && (be.Op == token.EQL || be.Op == token.NEQ) {
+		var other ast.Expr
+		if isVar(info, be.X, v) {
+			other = be.Y
+		} else if isVar(info, be.Y, v) {
+			other = be.X
+		}
+		if sel, ok := ast.Unparen(other).(*ast.SelectorExpr); ok && other != nil {
+			return sel.Sel.Name, neg != (be.Op == token.NEQ)
+		}
+		return "", false
+	}
+	call, ok := cond.(*ast.CallExpr)
+	if !ok {
+		return "", false
+	}
+	id := calleeID(info, call)
+	switch id {
+	case "errors.Is", "pkg/errors.Is":
+		if len(call.Args) == 2 && isVar(info, call.Args[0], v) {
+			if sel, ok := ast.Unparen(call.Args[1]).(*ast.SelectorExpr); ok {
+				return sel.Sel.Name, neg
+			}
+			if idn, ok := ast.Unparen(call.Args[1]).(*ast.Ident); ok {
+				return idn.Name, neg
+			}
+		}
+	case "os.IsNotExist", "os.IsExist":
+		if len(call.Args) == 1 && isVar(info, call.Args[0], v) {
+			return id, neg
+		}
+	}
+	return "", false
+}
